@@ -42,7 +42,7 @@ type pubEv struct {
 	Net    string `json:"net,omitempty"`
 	Addr   string `json:"addr,omitempty"`
 	Port   int    `json:"port,omitempty"`
-	Ufrag  string `json:"ufrag,omitempty"`
+	Ufrag  string `json:"-"`
 	UGen   int    `json:"ugen"` // generation whose ufrag the candidate carries (-1 unknown)
 	Res    int    `json:"res"`  // resource the candidate sits on (0 unknown)
 	ResGen int    `json:"rgen"` // generation in which that resource was acquired
@@ -77,6 +77,7 @@ type obsRec struct {
 	OwnedN  int     `json:"owned"`
 	Locals  int     `json:"locals"`
 	Acc     int     `json:"accepted"` // GatherCandidates calls that returned nil so far
+	Arrived []int   `json:"arrived"`  // gatherers that reached their first driver-controlled point in this step
 }
 
 type gth struct {
@@ -111,6 +112,8 @@ type runner struct {
 	failed       bool
 	redo         bool
 	lastRes      int
+	seenG        int
+	curStep      int
 }
 
 func cred(gen int) (string, string) {
@@ -342,6 +345,9 @@ func (r *runner) companions() bool {
 			if m, _ := s.pendingSTUN(); m != nil {
 				r.assignedSock[s] = true
 				s.reply(&net.UDPAddr{IP: net.IPv4(99, 0, 0, 1), Port: r.mappedPort(0, s.r.ID)})
+				w.mu.Lock()
+				s.r.AI = r.curStep
+				w.mu.Unlock()
 				did = true
 			}
 		}
@@ -355,6 +361,12 @@ func (r *runner) companions() bool {
 				continue
 			}
 			r.assignedTurn[t] = true
+			w.mu.Lock()
+			t.r.AI = r.curStep
+			if t.r.Parent > 0 {
+				w.res[t.r.Parent-1].AI = r.curStep
+			}
+			w.mu.Unlock()
 			t.grant(&net.UDPAddr{IP: net.IPv4(77, 0, 0, 1), Port: r.mappedPort(0, t.r.ID)})
 			did = true
 		}
@@ -572,6 +584,11 @@ func (r *runner) observe(i int, st step, ret, gspre string, settled bool) obsRec
 	o := obsRec{Ev: st.A, Scn: r.sc.ID, I: i, K: st.K, NoWait: st.NoWait, Ret: ret, GSPre: gspre, Settled: settled, Closing: r.closing,
 		Closed: r.isClosed(), Acc: r.acc}
 	owned := map[int]bool{}
+	o.Arrived = []int{}
+	for _, g := range r.gths[r.seenG:] {
+		o.Arrived = append(o.Arrived, g.id)
+	}
+	r.seenG = len(r.gths)
 	o.GS, o.Conn = "Closed", "Closed"
 	if !r.closing {
 		if snap, err := r.a.VerifGatherSnapshot(); err == nil {
@@ -668,44 +685,56 @@ func (r *runner) run() (out []obsRec, err error) {
 	r.closed = make(chan struct{})
 	r.assignedPark, r.assignedSock = map[*parked]bool{}, map[*fudp]bool{}
 	r.assignedTurn, r.assignedXor = map[*fturn]bool{}, map[*xorCall]bool{}
-	first := obsRec{Ev: "Reset", Scn: r.sc.ID, Site: r.sc.Site, Fault: r.sc.Fault, GS: "New", GSPre: "New", Conn: "New", Res: []res{}, Pub: []pubEv{}}
+	first := obsRec{Ev: "Reset", Scn: r.sc.ID, Site: r.sc.Site, Fault: r.sc.Fault, GS: "New", GSPre: "New", Conn: "New", Res: []res{}, Pub: []pubEv{}, Arrived: []int{}}
 	out = append(out, first)
 	gspre := "New"
-	for i, st := range r.sc.Steps {
+	n := 0
+	apply := func(st step) {
+		n++
+		r.curStep = n
 		ret := r.do(st)
 		if st.NoWait {
 			// the next event follows without letting the agent quiesce; nothing can be observed in between
-			out = append(out, obsRec{Ev: st.A, Scn: r.sc.ID, I: i + 1, K: st.K, NoWait: true, Ret: ret, GS: "?", GSPre: gspre, Conn: "?", Res: []res{}, Pub: []pubEv{}})
+			out = append(out, obsRec{Ev: st.A, Scn: r.sc.ID, I: n, K: st.K, NoWait: true, Ret: ret, GS: "?", GSPre: gspre, Conn: "?",
+				Res: []res{}, Pub: []pubEv{}, Arrived: []int{}})
 
-			continue
+			return
 		}
 		r.quiesce()
-		o := r.observe(i+1, st, ret, gspre, st.A == "Settle" && r.noneParked())
+		o := r.observe(n, st, ret, gspre, st.A == "Settle" && r.noneParked())
 		gspre = o.GS
 		out = append(out, o)
 	}
-	// End: release whatever is still held, close if the scenario did not, let every timer fire.
-	r.w.mu.Lock()
-	r.w.gateOn = false
-	for _, p := range r.w.parked {
-		select {
-		case <-p.ch:
-		default:
-			close(p.ch)
+	for _, st := range r.sc.Steps {
+		apply(st)
+	}
+	// Whatever the scenario left undone is done as ordinary, logged steps: release the gates, close, let every timer fire.
+	for _, g := range r.gths {
+		if g.park != nil && !g.freed {
+			apply(step{A: "Open", K: g.id})
 		}
 	}
-	r.w.mu.Unlock()
 	if !r.closing {
-		r.do(step{A: "Close"})
+		apply(step{A: "Close"})
 	}
-	r.quiesce()
-	time.Sleep(60 * time.Second)
-	r.quiesce()
+	for round := 0; round < 3 && !r.noneParked(); round++ {
+		for _, g := range r.gths {
+			if g.park != nil && !g.freed {
+				apply(step{A: "Open", K: g.id})
+			}
+		}
+	}
+	if len(out) == 0 || out[len(out)-1].Ev != "Settle" || !out[len(out)-1].Settled || !out[len(out)-1].Closing {
+		apply(step{A: "Settle"})
+	}
+	r.w.mu.Lock()
+	r.w.gateOn = false
+	r.w.mu.Unlock()
 	if r.dialCancel != nil {
 		r.dialCancel()
 	}
 	synctest.Wait()
-	o := r.observe(len(r.sc.Steps)+1, step{A: "End"}, "ok", gspre, true)
+	o := r.observe(n+1, step{A: "End"}, "ok", gspre, r.noneParked())
 	out = append(out, o)
 
 	return out, nil
@@ -774,7 +803,7 @@ func TestScenarios(t *testing.T) {
 		stats["scenarios"]++
 		if hung != "" {
 			stats["hung"]++
-			recs = append(recs, obsRec{Ev: "Hang", Scn: s.ID, Ret: hung, GS: "?", GSPre: "?", Conn: "?", Res: []res{}, Pub: []pubEv{}})
+			recs = append(recs, obsRec{Ev: "Hang", Scn: s.ID, Ret: hung, GS: "?", GSPre: "?", Conn: "?", Res: []res{}, Pub: []pubEv{}, Arrived: []int{}})
 		}
 		for _, o := range recs {
 			stats["events"]++
